@@ -27,6 +27,7 @@ structure RebuildOut (q q' : Q K) (items : List (Nat × Aabb3 K)) : Prop where
   attached : ∀ (p : Nat) (pr : Proxy), q'.proxies[p]? = some pr → (pr.node ≠ MAXN ↔ p ∈ items.map (·.1))
   data : ∀ p ∈ items.map (·.1), ∃ pr : Proxy, q'.proxies[p]? = some pr ∧ pr.data = p
   count : q'.nodes.size ≤ 4 * items.length + 2
+  clean : ∀ (n : Nat) (nd : Node K), q'.nodes[n]? = some nd → nd.dirty = false
 
 /-- unfolding of `rebuild` -/
 theorem rebuild_eq (q : Q K) (items : List (Nat × Aabb3 K)) (dil : K) (ps : Array Proxy) (aabbs : Array (Aabb3 K))
@@ -125,7 +126,7 @@ theorem rebuild_spec (q : Q K) (items : List (Nat × Aabb3 K)) (dil : K)
   have hcase : ∀ n, n < q'.nodes.size → n = 0 ∨ (1 ≤ n ∧ n < q1.nodes.size) := by intro n hn; omega
   have hlt : ∀ (n : Nat) (nd : Node K), q'.nodes[n]? = some nd → n < q'.nodes.size :=
     fun n nd h => (Array.getElem?_eq_some_iff.mp h).1
-  refine ⟨⟨?_, ?_, ?_, ?_, ?_, ?_, ?_, ?_, ?_, ?_⟩, hfree, ?_, ?_, ?_, ?_, ?_⟩
+  refine ⟨⟨?_, ?_, ?_, ?_, ?_, ?_, ?_, ?_, ?_, ?_⟩, hfree, ?_, ?_, ?_, ?_, ?_, ?_⟩
   · right; exact ⟨⟨_, hn0, rfl⟩, hlive 0⟩
   · intro n nd hn _ hleaf l c hc hcm
     rcases hcase n (hlt n nd hn) with rfl | ⟨a, b⟩
@@ -187,3 +188,16 @@ theorem rebuild_spec (q : Q K) (items : List (Nat × Aabb3 K)) (dil : K)
     rw [e0] at a1; cases a1
     exact ⟨pr', by rw [hprox]; exact a2, by rw [a3]; exact d0⟩
   · rw [hsize]; omega
+  · intro n nd hn
+    by_cases hn0' : n = 0
+    · subst hn0'; rw [hn0] at hn; cases hn; rfl
+    · rw [hnpos n hn0'] at hn
+      refine buildRec_clean aabbs dil _ _ _ _ _ _ hb ?_ n nd hn
+      intro m y hy
+      dsimp only at hy
+      have hm : m = 0 := by
+        have := (Array.getElem?_eq_some_iff.mp hy).1
+        simpa using this
+      subst hm
+      simp at hy
+      subst hy; rfl
